@@ -1,6 +1,17 @@
 """Registry of claimed properties (source of MANIFEST.json, see tools/gen_manifest.py)."""
 
 REGISTRY: dict[str, dict[str, str]] = {
+    "C01": {
+        "technique": "static analysis: marko element model, slicing / taint over render methods, CFG typestate (must-pass-through), "
+                     "truth tables, regex-language inclusion (Glushkov automata)",
+        "level": "Decides structural necessary conditions of meaning preservation for every element class and render method: "
+                 "dispatch totality, every semantic field reaches the output, decision tables injective, container-prefix "
+                 "typestate on all paths, encoders for delimited contexts, fence bound, and coverage of the parser's "
+                 "paragraph-interrupting first-word languages by the line-start escaper. The round trip itself (re-parse equals "
+                 "input tree) quantifies over runtime text and is not decided. 7 hazard classes are genuine, recorded findings.",
+        "note": "Trusted: marko source as installed (element classes, patterns); regex model over-approximates languages.",
+        "design_ref": "DESIGN.md §3 R-DISPATCH..R-HAZARD, §4 C01",
+    },
     "C15": {
         "technique": "static analysis: identity-origin dataflow over call-edge bindings, control dependence, liveness",
         "level": "Decides the structural clauses of C15 on every path and call site: option identity threading on each call "
